@@ -16,7 +16,7 @@ import (
 func init() {
 	register("C03",
 		"that a reported instant is a root of the solar longitude, the 14.6-15.8 day spacing, strict increase, and the agreement of adjacent years' tables (all numeric in the ephemeris).",
-		r03_1, r03_2, r03_3, r03_4, r03_5, r03_6, r03_7)
+		r03_1, r03_2, r03_3, r03_4, r03_5, r03_6, r03_7, r03_8)
 }
 
 // convertMap reads the if-chain of convertJieQi as a finite map alias -> name.
@@ -584,4 +584,124 @@ func r03_7(c *Ctx, r *Report) {
 	}
 	r.check(okk, rule, "calendar.computeJieQi pairs key i with Julian day i", c.fnPos(fn), "table[JIE_QI_IN_USE[i]] = NewSolarFromJulianDay(julianDays[i]) with one index")
 	anchoredOnCivilYear(c, r, rule)
+}
+
+// convertTerm folds convertJieQi for one constant key (the if-chain is followed by the evaluator).
+func convertTerm(c *Ctx, fn *ssa.Function, key string) (string, bool) {
+	ev := &evaluator{inline: inlineLibrary, leaf: func(fr *evalFrame, v ssa.Value) (interface{}, bool) {
+		if fr.parent == nil && len(fn.Params) == 1 && v == ssa.Value(fn.Params[0]) {
+			return key, true
+		}
+		return nil, false
+	}}
+	res, outcome := ev.run(fn, nil, nil, nil, nil)
+	if outcome != "return" || len(res) != 1 {
+		return "", false
+	}
+	s, ok := res[0].(string)
+	return s, ok
+}
+
+func r03_8(c *Ctx, r *Report) {
+	const rule = "R03.8"
+	r.rule(rule, "The Jie/Qi filter and its lookups speak one vocabulary. The four filtered searches put f(JIE_QI_IN_USE[2i+p]) into the filter set (f the identity or convertJieQi, p the parity of R03.2) and getNearJieQi admits a table key k iff g(k) is in the set (g the identity or convertJieQi). With the literal tables folded, for every one of the paired keys of JIE_QI_IN_USE — the alias keys of the neighbouring years included — g(k) is in the set exactly when k has parity p: a search that compares raw keys with display names silently skips the terms stored under alias keys (the December solstice of the current year is stored under DONG_ZHI).")
+	near := c.Fn(r, rule, "calendar.(*Lunar).getNearJieQi")
+	conv := c.Fn(r, rule, "calendar.convertJieQi")
+	keys := c.tabStrs(r, rule, "calendar", "JIE_QI_IN_USE")
+	if near == nil || conv == nil || keys == nil {
+		return
+	}
+	isConv := func(v ssa.Value) (ssa.Value, bool) {
+		call, ok := v.(*ssa.Call)
+		if ok && call.Common().StaticCallee() == conv {
+			return call.Common().Args[0], true
+		}
+		return nil, false
+	}
+	// g: the key of the lookup in the local filter set
+	g := ""
+	for _, b := range near.Blocks {
+		for _, ins := range b.Instrs {
+			lk, ok := ins.(*ssa.Lookup)
+			if !ok {
+				continue
+			}
+			if _, isLocal := lk.X.(*ssa.MakeMap); !isLocal {
+				continue
+			}
+			idx := lk.Index
+			if inner, ok := isConv(idx); ok {
+				idx = inner
+				g = "convert"
+			} else {
+				g = "identity"
+			}
+			if ta, ok := idx.(*ssa.TypeAssert); !ok || !isStringType(ta.AssertedType) {
+				g = "?"
+			}
+		}
+	}
+	if g == "" || g == "?" {
+		r.bad(rule, "calendar.(*Lunar).getNearJieQi filter lookup", c.fnPos(near), "the lookup in the filter set is not keyed by the table key or its converted name (undecided = fail)")
+		return
+	}
+	apply := func(how, k string) (string, bool) {
+		if how == "identity" {
+			return k, true
+		}
+		return convertTerm(c, conv, k)
+	}
+	for name, parity := range map[string]int{"GetNextJieByWholeDay": 0, "GetPrevJieByWholeDay": 0, "GetNextQiByWholeDay": 1, "GetPrevQiByWholeDay": 1} {
+		fn := c.Fn(r, rule, "calendar.(*Lunar)."+name)
+		if fn == nil {
+			continue
+		}
+		construct := "calendar.(*Lunar)." + name + " filter admits exactly the keys of its kind"
+		// f: what is stored into the slice of conditions
+		f := ""
+		for _, b := range fn.Blocks {
+			for _, ins := range b.Instrs {
+				st, ok := ins.(*ssa.Store)
+				if !ok || !isStringType(st.Val.Type()) {
+					continue
+				}
+				if _, isIA := st.Addr.(*ssa.IndexAddr); !isIA {
+					continue
+				}
+				v := st.Val
+				how := "identity"
+				if inner, ok := isConv(v); ok {
+					v, how = inner, "convert"
+				}
+				if ld, ok := v.(*ssa.UnOp); ok && ld.Op == token.MUL {
+					if ia, ok := ld.X.(*ssa.IndexAddr); ok && isLoadOfTable(ia.X, "calendar.JIE_QI_IN_USE") {
+						f = how
+						continue
+					}
+				}
+				f = "?"
+			}
+		}
+		if f == "" || f == "?" {
+			r.bad(rule, construct, c.fnPos(fn), "the filter set is not built from JIE_QI_IN_USE entries (undecided = fail)")
+			continue
+		}
+		set := map[string]bool{}
+		half := len(keys) / 2
+		okAll := true
+		for i := 0; i < half; i++ {
+			v, ok := apply(f, keys[2*i+parity])
+			okAll = okAll && ok
+			set[v] = true
+		}
+		var bad []string
+		for j := 0; j < 2*half; j++ {
+			v, ok := apply(g, keys[j])
+			okAll = okAll && ok
+			if set[v] != (j%2 == parity) {
+				bad = append(bad, fmt.Sprintf("%s (position %d) admitted=%v", keys[j], j, set[v]))
+			}
+		}
+		r.check(okAll && len(bad) == 0, rule, construct, c.fnPos(fn), fmt.Sprintf("set = %s of the %d entries of parity %d, lookup by %s of the key; %d keys checked; deviations: %v", f, half, parity, g, 2*half, headList(bad, 4)))
+	}
 }
